@@ -52,6 +52,7 @@ type beforeRec struct {
 	CurOp  int    `json:"current_operation"`      // index of the operation the harness was executing (-1: none)
 	HS     string `json:"latest_handshake_token"` // token of the most recently started Initialize call
 	Failed bool   `json:"returned_error"`
+	Fn     int    `json:"before_request_function,omitempty"` // composition pass: ordinal of the WithHTTPBeforeRequest function that ran (0: the only one)
 }
 
 type handlerRec struct {
@@ -70,9 +71,10 @@ type handlerRec struct {
 }
 
 type factoryCall struct {
-	ServiceName string `json:"service_name"`
-	NOptions    int    `json:"n_options"`
-	Sentinels   int    `json:"sentinel_options"` // how many of the options are the configured one
+	ServiceName string   `json:"service_name"`
+	NOptions    int      `json:"n_options"`
+	Sentinels   int      `json:"sentinel_options"`      // how many of the options are the configured one
+	Tags        []string `json:"option_tags,omitempty"` // tags of all harness options received, in order
 }
 
 // factoryOpt is the value passed through WithHTTPReqHandlerOption.
@@ -159,12 +161,21 @@ func peekBody(req *http.Request) []byte {
 
 // beforeFn is the recording WithHTTPBeforeRequest function.
 func (l *runLog) beforeFn(ctx context.Context, req *http.Request) error {
+	return l.beforeN(0, ctx, req)
+}
+
+// beforeFnN is the fn-th of several recording WithHTTPBeforeRequest functions (composition pass).
+func (l *runLog) beforeFnN(fn int) mcp.HTTPBeforeRequestFunc {
+	return func(ctx context.Context, req *http.Request) error { return l.beforeN(fn, ctx, req) }
+}
+
+func (l *runLog) beforeN(fn int, ctx context.Context, req *http.Request) error {
 	kind, _ := classify(l.client, req.Method, peekBody(req))
 	l.mu.Lock()
 	l.bef++
 	n := l.bef
 	tok := tokenOf(ctx)
-	rec := &beforeRec{N: n, Token: tok, Method: req.Method, URL: req.URL.String(), Kind: kind, CurOp: l.curOp, HS: l.hs,
+	rec := &beforeRec{N: n, Fn: fn, Token: tok, Method: req.Method, URL: req.URL.String(), Kind: kind, CurOp: l.curOp, HS: l.hs,
 		Failed: n == l.failAt || (l.vetoToken != "" && tok == l.vetoToken) || l.vetoed[tok]}
 	l.before = append(l.before, rec)
 	l.mu.Unlock()
@@ -247,8 +258,11 @@ func installFactory(l *runLog) func() {
 	mcp.NewHTTPReqHandler = func(serviceName string, options ...mcp.HTTPReqHandlerOption) mcp.HTTPReqHandler {
 		fc := factoryCall{ServiceName: serviceName, NOptions: len(options)}
 		for _, o := range options {
-			if fo, ok := o.(*factoryOpt); ok && fo != nil && fo.Tag == sentinelTag {
-				fc.Sentinels++
+			if fo, ok := o.(*factoryOpt); ok && fo != nil {
+				fc.Tags = append(fc.Tags, fo.Tag)
+				if fo.Tag == sentinelTag {
+					fc.Sentinels++
+				}
 			}
 		}
 		l.mu.Lock()
